@@ -55,3 +55,7 @@ prop('C13','exploration','independent strict catar validator (element grammar, s
  'Packs generated trees (every root fan-out 0..130 and random ones up to thousands, nesting, hostile names, multiple xattrs, devices, FIFOs/sockets to be skipped) from disk and from a tar stream, validates every byte of the archive with a validator that shares no code with desync and that accepts the casync-made fixtures, and compares the reconstructed tree with the source listing.',
  'Validator written from the format description; casync itself is not available, its fixtures are the anchor. xattr value termination follows desync\'s convention (fixtures hold no xattrs).',
  'DESIGN.md 5/C13')
+prop('C05','exploration','typed filesystem snapshot diff between source and unpacked tree over every pack/unpack path, with independent readers for tar and mtree output; archive determinism check',
+ 'Generated trees with hostile names and metadata are packed and unpacked through catar, caidx+store (library and CLI, both digests), tar-stream input (GNU tar streams) and gnu-tar / mtree output; every entry is compared on path, type, permission and special bits, owner, symlink target, xattrs, device numbers, content and mtime (per path: the fields the format carries), and two packs must be byte-identical. Differences are classified (writer, entry type, field) and matched against known_findings.txt one class at a time.',
+ 'Runs as root on ext4. Recorded known findings: directory/symlink mtimes, mtime==0 sentinel, set-id bits in gnu-tar output (see known_findings.txt). tar output is read back with Go archive/tar and GNU tar.',
+ 'DESIGN.md 5/C05')
